@@ -212,6 +212,9 @@ type Conn struct {
 	pacingDeadline monotime.Time
 
 	peerParams *wire.TransportParameters
+	// uAdvertisedParams are the transport parameters a spec-driven client put on the wire
+	// (nil unless a QUICSpec with a ClientHelloSpec is in use). [UQUIC]
+	uAdvertisedParams *wire.TransportParameters
 
 	timer *time.Timer
 	// keepAlivePingSent stores whether a keep alive PING is in flight.
@@ -2951,11 +2954,25 @@ func (c *Conn) newFlowController(id protocol.StreamID) flowcontrol.StreamFlowCon
 			initialSendWindow = c.peerParams.InitialMaxStreamDataBidiLocal
 		}
 	}
+	initialReceiveWindow := protocol.ByteCount(c.config.InitialStreamReceiveWindow)
+	maxReceiveWindow := protocol.ByteCount(c.config.MaxStreamReceiveWindow)
+	// [UQUIC] A spec-driven client advertised one window per stream type; enforce exactly those.
+	if p := c.uAdvertisedParams; p != nil {
+		switch {
+		case id.Type() == protocol.StreamTypeUni:
+			initialReceiveWindow = p.InitialMaxStreamDataUni
+		case id.InitiatedBy() == c.perspective:
+			initialReceiveWindow = p.InitialMaxStreamDataBidiLocal
+		default:
+			initialReceiveWindow = p.InitialMaxStreamDataBidiRemote
+		}
+		maxReceiveWindow = max(maxReceiveWindow, initialReceiveWindow)
+	}
 	return flowcontrol.NewStreamFlowController(
 		id,
 		c.connFlowController,
-		protocol.ByteCount(c.config.InitialStreamReceiveWindow),
-		protocol.ByteCount(c.config.MaxStreamReceiveWindow),
+		initialReceiveWindow,
+		maxReceiveWindow,
 		initialSendWindow,
 		c.rttStats,
 		c.logger,
